@@ -102,6 +102,96 @@ PINNED = [
 ]
 
 
+def gen_misuses(rng, n):
+    """Generated embeddings of the documented misuses: the offending token sits on its own line (after /*@off*/), at a
+    random position among well-formed neighbours (other fns of the module / block, other options of the list)."""
+    ok_fns = ["pub fn ok%d<D>(d: &D) {}", "pub fn ok%d(d: &impl Sized) -> u8 { 0 }", "pub async fn ok%d<D: Clone>(d: &D, a: u8) -> u8 { a }",
+              "pub(crate) fn ok%d<D>(_: &D, (a, b): (u8, u8)) {}", "pub fn ok%d<D>(d: D, a: &str) {}", "fn private%d() {}"]
+    ok_impl_fns = ["fn ok%d<D>(d: &D) {}", "fn ok%d(d: &impl Sized) -> u8 { 0 }", "async fn ok%d<D: Clone>(d: &D, a: u8) -> u8 { a }", "pub fn ok%d<D>(d: &D, _: u8) {}"]
+    concrete = ["Concrete", "some::Concrete", "crate::Concrete", "Concrete<u8>", "super::App", "Vec<u8>"]   # (a leading `::` is rejected earlier, with a message of its own)
+    self_forms = ["&self", "self", "&mut self", "mut self", "self: Box<Self>", "self: &Self", "&'a self"]
+    valid = {"fn": ["export", "?Send", "mock_api = M", "unimock = false", "mockall = false", "debug = false", "no_deps = false"],
+             "mod": ["export", "?Send", "mock_api = M", "unimock = false", "mockall = false", "debug = false"],
+             "trait": ["?Send", "mock_api = M", "unimock = false", "mockall = false", "debug = false", "delegate_by = ref"],
+             "impl": ["debug = false"]}
+    unknown = ["bogus", "nodeps", "no_dep", "exports", "mock", "mockal", "unimok", "delegate", "send", "debugg", "Export", "NO_DEPS", "r#export", "dyn_"]
+    unsupported = {"fn": ["delegate_by = ref", "delegate_by = Self", "delegate_by = Custom"], "mod": ["delegate_by = ref", "delegate_by = Self"],   # (no_deps on a module: recorded finding K7 of C17)
+                   "trait": ["no_deps", "export", "export = false"], "impl": ["export", "mockall", "unimock = false", "mock_api = M", "no_deps", "?Send", "delegate_by = ref"]}
+    items = {"fn": "fn f<D>(d: &D) {}", "mod": "mod m { pub fn f<D>(d: &D) {} }", "trait": "trait T { fn f(&self); }", "impl": "impl T for X { fn f<D>(d: &D) {} }"}
+    out = []
+
+    def container(kind, bad_fn):
+        k = rng.randint(0, 3)
+        pool = ok_fns if kind == "mod" else ok_impl_fns
+        fns = [rng.choice(pool) % i for i in range(k)]
+        fns.insert(rng.randint(0, k), bad_fn)
+        if kind == "mod":
+            return "#[::entrait::entrait(%sFoo%s)]\n%smod m {\n%s\n}" % (rng.choice(["", "pub ", "pub(crate) "]), rng.choice(["", ", export", ", ?Send"]),
+                                                                       rng.choice(["", "pub "]), "\n".join("    " + f for f in fns))
+        return "#[::entrait::entrait%s]\nimpl T for X {\n%s\n}" % (rng.choice(["", "(debug = false)"]), "\n".join("    " + f for f in fns))
+
+    def attr_with(kind, bad, after_value=""):
+        """option list for `kind` with `bad` (on its own line) at a random position among valid options"""
+        opts = rng.sample(valid[kind], rng.randint(0, min(2, len(valid[kind]))))
+        if kind == "trait" and rng.random() < 0.5:
+            opts = [o for o in opts if not o.startswith("delegate_by")]
+        pos = rng.randint(0, len(opts))
+        lst = opts[:pos] + ["\n/*@off*/ " + bad + after_value + "\n"] + opts[pos:]
+        head = {"fn": ["Foo"], "mod": ["pub Foo"], "trait": [], "impl": []}[kind]
+        return head, lst
+
+    for i in range(n):
+        kind = rng.choice(["concrete_mod", "concrete_impl", "missing_fn", "missing_mod", "missing_impl", "self_fn", "self_mod", "self_impl",
+                           "unknown", "unknown", "unsupported", "unsupported", "custom_no_target", "target_no_delegate"])
+        nm = "g%03d_%s" % (i, kind)
+        if kind in ("concrete_mod", "concrete_impl"):
+            bad = "%sfn bad(d: &\n/*@off*/ %s\n%s) {}" % ("pub " if kind == "concrete_mod" else "", rng.choice(concrete), rng.choice(["", ", a: u8"]))
+            out.append((nm, container("mod" if kind == "concrete_mod" else "impl", bad),
+                        r"concrete dependencies in a module" if kind == "concrete_mod" else r"concrete dependency in an impl block"))
+        elif kind.startswith("missing"):
+            bad = "%sfn\n/*@off*/ no_receiver\n() {}" % rng.choice(["pub ", "pub(crate) "] if kind == "missing_mod" else ["", "pub "])
+            src = "#[::entrait::entrait(Foo%s)]\n%s" % (rng.choice(["", ", export", ", no_deps = false"]), bad) if kind == "missing_fn" else \
+                container("mod" if kind == "missing_mod" else "impl", bad)
+            out.append((nm, src, r"must have a dependency 'receiver'"))
+        elif kind.startswith("self"):
+            sf = rng.choice(self_forms)
+            lt = "<'a>" if "'a" in sf else ""
+            bad = "%sfn bad%s(\n/*@off*/ %s\n%s) {}" % ("pub " if kind != "self_impl" else "", lt, sf, rng.choice(["", ", a: u8", ", d: &impl Sized"]))
+            src = "#[::entrait::entrait(Foo%s)]\n%s" % (rng.choice(["", ", no_deps", ", ?Send"]), bad) if kind == "self_fn" else \
+                container("mod" if kind == "self_mod" else "impl", bad)
+            out.append((nm, src, r"cannot have a self receiver"))
+        elif kind in ("unknown", "unsupported"):
+            tgt = rng.choice(["fn", "mod", "trait", "impl"])
+            if kind == "unknown":
+                word = rng.choice(unknown)
+                head, lst = attr_with(tgt, word, rng.choice(["", " = true", " = false", " = Foo"]))
+                if tgt in ("trait", "impl") and not head and lst[0].startswith("\n"):
+                    # first position of a trait's list is the delegation-target name; of an impl's list `ref` / `dyn`
+                    lst = [rng.choice(valid[tgt])] + lst if tgt == "trait" else ["debug = false"] + lst
+                msg = 'Unkonwn entrait option "%s"' % word
+            else:
+                word = rng.choice(unsupported[tgt])
+                head, lst = attr_with(tgt, word)
+                if tgt == "trait":
+                    lst = [o for o in lst if not (o.startswith("delegate_by") )]
+                msg = r"Unsupported option"
+            out.append((nm, "#[::entrait::entrait(%s)]\n%s" % (", ".join(head + lst), items[tgt]), msg))
+        elif kind == "custom_no_target":
+            word = rng.choice(["Custom", "DelegateT", "some_trait", "SELF", "Ref", "borrow"])
+            opts = rng.sample([o for o in valid["trait"] if not o.startswith("delegate_by")], rng.randint(0, 2))
+            pos = rng.randint(0, len(opts))
+            lst = opts[:pos] + ["\n/*@off*/ delegate_by\n = " + word] + opts[pos:]
+            out.append((nm, "#[::entrait::entrait(%s)]\n%strait T { fn f(&self); }" % (", ".join(lst), rng.choice(["", "pub "])),
+                        r"custom delegating trait without a custom trait"))
+        else:
+            opts = rng.sample([o for o in valid["trait"] if not o.startswith("delegate_by")], rng.randint(0, 2))
+            if rng.random() < 0.3:
+                opts.append("delegate_by = Self")
+            out.append((nm, "#[::entrait::entrait(%s)] /*@off*/\n%strait T { fn f(&self); }" % (", ".join([rng.choice(["", "pub ", "pub(crate) "]) + "TImpl"] + opts), rng.choice(["", "pub "])),
+                        r"Missing delegate_by"))
+    return out
+
+
 # inputs of recorded (not repaired) findings: exercised only here, never by the random generators
 KNOWN_PINS = [
     ("unsafe_impl_block", "#[::entrait::entrait] /*@inv*/\nunsafe impl UnsafeImpl for X { fn f(d: &impl Sized) {} }"),
@@ -229,7 +319,7 @@ def run(tier, seed):
         c.src = c.src.replace("unsafe impl ", "impl ")
     cases += rich
     pinned = []
-    for name, src, msg in PINNED:
+    for name, src, msg in PINNED + gen_misuses(rng, 150 if tier == "quick" else 1500):
         c = Case("c15pin_" + name, src + "\n", meta={"family": "pinned", "message": msg, "pin": name}, run=False, expect="expand")
         pinned.append(c)
     kpins = [Case("c15known_" + name, src + "\n", meta={"family": "known-pin", "pin": name}, run=False, expect="expand")
